@@ -364,7 +364,11 @@ def assemble(tmpl_path, out_path, canary=False):
     # then derive per-line provenance from the run that contains the line's first
     # non-blank character.
     runs = []
+    safety_props = []
     for kind, lineno, payload in parts:
+        if kind == 'text' and payload.strip().startswith('//@@ safety '):
+            safety_props += payload.split()[2:]
+            continue
         if kind == 'text':
             runs.append((payload + '\n', {'k': 'tmpl', 'tline': lineno}))
         else:
@@ -432,7 +436,7 @@ def assemble(tmpl_path, out_path, canary=False):
         m = re.search(r'/\*CANARY:([^*]*)\*/', ln)
         if m:
             canary_lines.append({'line': li + 1, 'what': m.group(1)})
-    meta = {'template': tmpl_path, 'out': out_path, 'items': items, 'linemap': linemap, 'canary_lines': canary_lines}
+    meta = {'template': tmpl_path, 'out': out_path, 'items': items, 'linemap': linemap, 'canary_lines': canary_lines, 'safety_props': safety_props}
     with open(out_path + '.map.json', 'w') as f:
         json.dump(meta, f)
     return meta
